@@ -889,8 +889,32 @@ var rR20s = RuleRef{Name: "R20s", Doc: "database selection: the selection store 
 		}
 		return sites > 0
 	}
-	for _, sel := range c.P.allFuncs("server") {
+	judge := func(sel *ssa.Function, ia *ssa.IndexAddr, val ssa.Value, at ssa.Instruction) {
 		p := c.newProver(sel)
+		nStore++
+		if !isManagerTable(sel, ia.X) {
+			c.Add("R20s", fnName(sel), "the selected database is an element of the Manager's table", at.Pos(), false, "stored value "+canon(val))
+			return
+		}
+		idx := p.lin(ia.Index)
+		ln := p.lenOf(ia.X)
+		inRange := p.ProveLE(lt{"0", 0}, idx, 0, at) && p.ProveLE(idx, ln, -1, at)
+		c.Add("R20s", fnName(sel), "selection store dominated by 0 <= idx < len(DBs)", at.Pos(), inRange, "index "+canon(ia.Index))
+		// exactness: what is known about idx at the store is no more than 0 <= idx <= len-1 (a test that rejects a
+		// configured index would make a tighter bound provable here)
+		exactHi := !p.ProveLE(idx, ln, -2, at)
+		exactLo := !p.ProveLE(lt{"0", 0}, idx, -1, at)
+		c.Add("R20s", fnName(sel), "the range test rejects exactly idx >= len(DBs) and idx < 0", at.Pos(), exactHi && exactLo, fmt.Sprintf("upper test exact=%v lower test exact=%v", exactHi, exactLo))
+	}
+	elemOf := func(v ssa.Value) *ssa.IndexAddr {
+		if u, ok := v.(*ssa.UnOp); ok && u.Op == token.MUL {
+			if ia, ok := u.X.(*ssa.IndexAddr); ok {
+				return ia
+			}
+		}
+		return nil
+	}
+	for _, sel := range c.P.allFuncs("server") {
 		for _, b := range sel.Blocks {
 			for _, in := range b.Instrs {
 				st, ok := in.(*ssa.Store)
@@ -902,32 +926,39 @@ var rR20s = RuleRef{Name: "R20s", Doc: "database selection: the selection store 
 					continue
 				}
 				// the stored db is m.DBs[idx]
-				u, _ := st.Val.(*ssa.UnOp)
-				var ia *ssa.IndexAddr
-				if u != nil {
-					ia, _ = u.X.(*ssa.IndexAddr)
-				}
-				if ia == nil {
-					if sel.Name() == "Select" {
-						nStore++
-						c.Add("R20s", fnName(sel), "the selected database is an element of the Manager's table", st.Pos(), false, "stored value "+canon(st.Val))
-					}
-					continue // a constructor storing the default database: R20i / R20o
-				}
-				nStore++
-				if !isManagerTable(sel, ia.X) {
-					c.Add("R20s", fnName(sel), "the selected database is an element of the Manager's table", st.Pos(), false, "stored value "+canon(st.Val))
+				if ia := elemOf(st.Val); ia != nil {
+					judge(sel, ia, st.Val, st)
 					continue
 				}
-				idx := p.lin(ia.Index)
-				ln := p.lenOf(ia.X)
-				inRange := p.ProveLE(lt{"0", 0}, idx, 0, st) && p.ProveLE(idx, ln, -1, st)
-				c.Add("R20s", fnName(sel), "selection store dominated by 0 <= idx < len(DBs)", st.Pos(), inRange, "index "+canon(ia.Index))
-				// exactness: what is known about idx at the store is no more than 0 <= idx <= len-1 (a test that rejects a
-				// configured index would make a tighter bound provable here)
-				exactHi := !p.ProveLE(idx, ln, -2, st)
-				exactLo := !p.ProveLE(lt{"0", 0}, idx, -1, st)
-				c.Add("R20s", fnName(sel), "the range test rejects exactly idx >= len(DBs) and idx < 0", st.Pos(), exactHi && exactLo, fmt.Sprintf("upper test exact=%v lower test exact=%v", exactHi, exactLo))
+				// a setter of the connection state (st.use(db)): the stored value is judged where the setter is called
+				if prm, isP := st.Val.(*ssa.Parameter); isP && namedOf(prm.Type()) == "MemDb" {
+					pi := -1
+					for i, q := range sel.Params {
+						if q == prm {
+							pi = i
+						}
+					}
+					for _, g := range c.P.allFuncs("server") {
+						for _, gb := range g.Blocks {
+							for _, gi := range gb.Instrs {
+								ci, ok := gi.(ssa.CallInstruction)
+								if !ok || callee(ci) != sel || pi < 0 || pi >= len(ci.Common().Args) {
+									continue
+								}
+								if ia := elemOf(ci.Common().Args[pi]); ia != nil {
+									judge(g, ia, ci.Common().Args[pi], gi)
+								}
+								// any other argument is a default database handed to a constructor: R20i / R20o
+							}
+						}
+					}
+					continue
+				}
+				if sel.Name() == "Select" {
+					nStore++
+					c.Add("R20s", fnName(sel), "the selected database is an element of the Manager's table", st.Pos(), false, "stored value "+canon(st.Val))
+				}
+				// otherwise a constructor storing the default database: R20i / R20o
 			}
 		}
 	}
